@@ -35,10 +35,16 @@ class HttpImpl:
         self.srv.close()
 
     def setup_lines(self):
-        return ["hnew", "hdir " + enc("/user"), "hprincipal " + enc("/user"),
-                "hdir " + enc("/user/calendars"), "hdir " + enc("/user/contacts"),
-                "hcoll %s calendar" % enc(CAL), "hcoll %s addressbook" % enc(BOOK),
-                "hcoll %s inbox" % enc("/user/inbox")]
+        import os
+        lines = ["hnew", "hdir " + enc("/user"), "hprincipal " + enc("/user"),
+                 "hdir " + enc("/user/calendars"), "hdir " + enc("/user/contacts"),
+                 "hcoll %s calendar" % enc(CAL), "hcoll %s addressbook" % enc(BOOK),
+                 "hcoll %s inbox" % enc("/user/inbox")]
+        for cp in (CAL, BOOK, "/user/inbox"):
+            cfg = os.path.join(self.root, "data" + cp, ".xandikos")
+            if os.path.isfile(cfg):
+                lines.append("hcfg %s %s" % (enc(cp), enc(self.toks.tok(open(cfg, "rb").read()))))
+        return lines
 
     def target(self, path):
         return self.prefix.rstrip("/") + urllib.parse.quote(path)
@@ -136,6 +142,88 @@ class HttpImpl:
                 self.notes.append("C03:304-with-body")
             return "notmodified"
         return self.write_obs(r, created=False)
+
+    TAGPROPS = (b'<?xml version="1.0"?><D:propfind xmlns:D="DAV:" xmlns:CS="http://calendarserver.org/ns/"><D:prop>'
+                b'<CS:getctag/><D:getctag/><D:sync-token/><D:getetag/></D:prop></D:propfind>')
+
+    def tags(self, cpath):
+        """The four projections of the collection tag; symbolic tree if they agree and hash correctly."""
+        import os
+        from bodies import git_tree_id, git_blob_id
+        r = self.srv.request("PROPFIND", self.target(cpath + "/"), {"Depth": "0", "Content-Type": "text/xml"},
+                             self.TAGPROPS)
+        ms = parse_multistatus(r.body) if r.status == 207 else None
+        if not ms or not ms[0]:
+            return "notags", None
+        props = ms[0][0]["props"]
+        vals = {}
+        for tag in ("{http://calendarserver.org/ns/}getctag", "{DAV:}getctag", "{DAV:}sync-token", "{DAV:}getetag"):
+            pv = props.get(tag)
+            vals[tag] = pv[1].text if pv and pv[0] == "200" else None
+        ctag = vals["{DAV:}getctag"]
+        if vals["{http://calendarserver.org/ns/}getctag"] != ctag or vals["{DAV:}sync-token"] != ctag \
+                or vals["{DAV:}getetag"] != '"%s"' % ctag:
+            self.notes.append("C08:tag-projections-disagree %r" % (vals,))
+        if ctag is None:
+            return "notags", None
+        # recompute the git tree hash of what the collection lists (+ the metadata file, if any)
+        lst = self.list(cpath)
+        entries, sym = [], []
+        if lst.startswith("list ="):
+            for item in lst[len("list ="):].split(","):
+                if item:
+                    n, _, e = item.partition(":")
+                    n, e = urllib.parse.unquote(n), urllib.parse.unquote(e).strip('"')
+                    sym.append((n, e))
+                    entries.append((n, self.toks.etag_of(e, "tree") if not e.startswith("?") else e[1:]))
+        cfg = os.path.join(self.root, "data" + cpath, ".xandikos")
+        if os.path.isfile(cfg):
+            data = open(cfg, "rb").read()
+            entries.append((".xandikos", git_blob_id(data)))
+            sym.append((".xandikos", self.toks.tok(data)))
+        sym.sort(key=lambda p: p[0].encode("utf-8"))
+        if git_tree_id(entries) != ctag:
+            return "tags =?" + ctag, ctag
+        # the metadata file takes part in the hash; the symbolic form lists members only
+        sym = [p for p in sym if p[0] != ".xandikos"]
+        self.tree_of_tag = getattr(self, "tree_of_tag", {})
+        self.tree_of_tag[ctag] = sym
+        return "tags " + enc_pairs(sym), ctag
+
+    def sync(self, cpath, token_text):
+        """sync-collection REPORT with the given token text (None = empty token)."""
+        tokxml = "<D:sync-token/>" if token_text is None else "<D:sync-token>%s</D:sync-token>" % (
+            token_text.replace("&", "&amp;").replace("<", "&lt;"))
+        body = ('<?xml version="1.0"?><D:sync-collection xmlns:D="DAV:">%s<D:sync-level>1</D:sync-level>'
+                '<D:prop><D:getetag/></D:prop></D:sync-collection>' % tokxml).encode("utf-8")
+        base = self.target(cpath + "/")
+        r = self.srv.request("REPORT", base, {"Depth": "1", "Content-Type": "text/xml"}, body)
+        # any error answer (412 valid-sync-token, 400, 500) is a rejection of the token
+        if r.status != 207:
+            return "rejected" if r.status >= 400 else "other%d" % r.status
+        ms = parse_multistatus(r.body)
+        if not ms:
+            return "rejected"
+        items, newtok = ms
+        for it in items:
+            if it["error"]:
+                return "rejected"
+        plus, minus = [], []
+        basep = urllib.parse.unquote(base)
+        for it in items:
+            path = urllib.parse.unquote(urllib.parse.urlsplit(it["href"] or "").path)
+            name = path[len(basep):] if path.startswith(basep) else "?" + path
+            if it["status"] == "404":
+                minus.append(name)
+            else:
+                et = it["props"].get(DAV + "getetag")
+                plus.append((name, (self.sym_etag(et[1].text) or "?").strip('"') if et else "?none"))
+        plus.sort(key=lambda p: p[0].encode("utf-8"))
+        minus.sort(key=lambda n: n.encode("utf-8"))
+        qq = lambda x: urllib.parse.quote(x, safe="")
+        chg = "changes =" + ",".join(["+" + qq(n) + ":" + qq(e) for n, e in plus] + ["-" + qq(n) for n in minus])
+        sym = getattr(self, "tree_of_tag", {}).get(newtok)
+        return chg + " " + (enc_pairs(sym) if sym is not None else "=?" + str(newtok))
 
     def list(self, cpath):
         r = self.srv.request("PROPFIND", self.target(cpath + "/"),
@@ -263,12 +351,13 @@ COND_SELS = ["none", "cur", "stale", "other", "star", "list-cur", "list-cur2", "
              "unquoted", "weak", "star-list"]
 
 
-def execute_http(frontend, prefix, template, toks, attrs, audit_paths, colls=(CAL, BOOK), check_views=False, git_checks=False, **kw):
+def execute_http(frontend, prefix, template, toks, attrs, audit_paths, colls=(CAL, BOOK), check_views=False, git_checks=False, check_tags=False, **kw):
     root = scratch_dir()
     impl = HttpImpl(frontend, prefix, toks, root, **kw)
     lines = list(impl.setup_lines())
     hist = {}
     known_colls = list(colls)
+    issued = {}
 
     def cur_of(path):
         cp, _, name = path.rpartition("/")
@@ -310,6 +399,13 @@ def execute_http(frontend, prefix, template, toks, attrs, audit_paths, colls=(CA
                         impl.notes.append("C02:view-%s-disagrees-with-propfind %r vs %r" % (vname, d, ref))
         for cp in known_colls:
             lines.append("LIST %s | %s" % (enc(cp), impl.list(cp)))
+            if check_tags:
+                obs, sha = impl.tags(cp)
+                lines.append("TAGS %s | %s" % (enc(cp), obs))
+                if sha is not None and obs.startswith("tags =") and not obs.startswith("tags =?"):
+                    issued.setdefault(cp, [])
+                    if all(s != sha for s, _ in issued[cp]):
+                        issued[cp].append((sha, obs[len("tags "):]))
         for p in audit_paths:
             lines.append("GET %s ~ | %s" % (enc(p), impl.get(p, None)))
 
@@ -360,6 +456,30 @@ def execute_http(frontend, prefix, template, toks, attrs, audit_paths, colls=(CA
                 obs = impl.get(path, inm)
                 lines.append("GET %s %s | %s" % (enc(path), enc(inm), obs))
                 continue
+            elif kind == "SYNC":
+                _, cpath, which = op
+                if cpath not in known_colls:
+                    continue
+                obs, sha = impl.tags(cpath)      # make sure the current token is known
+                lines.append("TAGS %s | %s" % (enc(cpath), obs))
+                if sha is not None and not obs.startswith("tags =?") and obs.startswith("tags ="):
+                    issued.setdefault(cpath, [])
+                    if all(s != sha for s, _ in issued[cpath]):
+                        issued[cpath].append((sha, obs[len("tags "):]))
+                if which == "all":
+                    for (s_, sym) in list(issued.get(cpath, [])):
+                        lines.append("SYNC %s %s | %s" % (enc(cpath), sym, impl.sync(cpath, s_)))
+                elif which == "empty":
+                    lines.append("SYNC %s ~ | %s" % (enc(cpath), impl.sync(cpath, None)))
+                else:
+                    cur_sha = sha or "0" * 40
+                    foreign = {"foreign": ["f" * 40, "0123456789abcdef0123456789abcdef01234567"],
+                               "malformed": ["sync-token-1", "http://example.org/ns/sync/12", cur_sha[:39],
+                                             cur_sha.upper(), '"%s"' % cur_sha, cur_sha + "0", " "]}[which]
+                    for t in foreign:
+                        lines.append("SYNC %s !%s | %s" % (enc(cpath), urllib.parse.quote(t, safe=""),
+                                                           impl.sync(cpath, t)))
+                continue
             elif kind == "restart":
                 impl.srv.restart()
                 lines.append("restart | restart")
@@ -393,7 +513,7 @@ def compare_http(lines):
     return dis, viol
 
 
-NAMES = {CAL: ["a.ics", "b.ics", "c d.ics"], BOOK: ["k.vcf", "l.vcf"]}
+NAMES = {CAL: ["a.ics", "b.ics", "c d.ics", "release.github.ics"], BOOK: ["k.vcf", "team.gitlab.vcf"]}
 
 
 def gen_http_template(rng, toks, length, profile="mixed"):
@@ -433,7 +553,15 @@ def gen_http_template(rng, toks, length, profile="mixed"):
         elif r < 0.8:
             ops.append(("GET", path, "none" if "/.git/" in path else sel()))
         elif r < 0.86:
-            ops.append(("restart",))
+            if profile in ("sync", "tags") and rng.random() < 0.8:
+                ops.append(("SYNC", CAL if rng.random() < 0.7 else BOOK,
+                            rng.choice(["all", "all", "empty", "foreign", "malformed"])))
+            elif profile == "tags" and rng.random() < 0.9:
+                # delete a whole collection and create it again at the same URL
+                ops.append(("DELETE", CAL, "none"))
+                ops.append(("MKCALENDAR", CAL))
+            else:
+                ops.append(("restart",))
         elif r < 0.93:
             ops.append(("POST", CAL if rng.random() < 0.6 else BOOK,
                         "text/calendar" if rng.random() < 0.6 else "text/vcard",
@@ -444,14 +572,15 @@ def gen_http_template(rng, toks, length, profile="mixed"):
     return ops, paths
 
 
-def run_http_templates(chk, toks, n, length, profile, prefixes, check_views=False, git_checks=False, frontends=("wsgi", "aiohttp"),
+def run_http_templates(chk, toks, n, length, profile, prefixes, check_views=False, git_checks=False, check_tags=False,
+                       frontends=("wsgi", "aiohttp"),
                        route_prefixes=("/", "/dav/", "/a/b/")):
     for i in range(n):
         tmpl, paths = gen_http_template(chk.rng, toks, length, profile)
         for fe in frontends:
             prefix = chk.rng.choice(route_prefixes)
             lines, notes = execute_http(fe, prefix, tmpl, toks, AttrTable(toks), paths, check_views=check_views,
-                                        git_checks=git_checks)
+                                        git_checks=git_checks, check_tags=check_tags)
             dis, viol = compare_http(lines)
             chk.traces_validated += 1
             nops = sum(1 for ln in lines if ln.split(" ", 1)[0] in ("PUT", "DELETE", "POST"))
